@@ -19,6 +19,8 @@ Nn    == [t |-> "none"]
 S(q)  == [t |-> "str", v |-> q]          \* q : Seq(Nat) code units
 Li(q) == [t |-> "list", v |-> q]         \* q : Seq(value)
 Tu(q) == [t |-> "tuple", v |-> q]
+Ip(q) == [t |-> "ip", v |-> q]           \* net.ipaddress; q : its canonical text
+Pa(q) == [t |-> "path", v |-> q]         \* posix path; q : its text
 Mi    == [t |-> "missing"]
 Err   == [t |-> "err"]
 Un    == [t |-> "unspec"]
@@ -42,14 +44,19 @@ BAnd(x, y) == IF x = 0 \/ y = 0 THEN 0 ELSE ((x % 2) * (y % 2)) + 2 * BAnd(x \di
 BOr(x, y)  == IF x = 0 THEN y ELSE IF y = 0 THEN x ELSE (IF (x % 2) + (y % 2) > 0 THEN 1 ELSE 0) + 2 * BOr(x \div 2, y \div 2)
 \* ---------- Python equality / ordering / membership ----------
 RECURSIVE PyEq(_, _)
+TextLike(x) == x.t \in {"ip", "path"}
 PyEq(x, y) == IF IsNum(x) /\ IsNum(y) THEN Num(x) = Num(y)
+              ELSE IF TextLike(x) /\ y.t = "str" THEN x.v = y.v        \* the field types compare equal to their text form
+              ELSE IF TextLike(y) /\ x.t = "str" THEN x.v = y.v
+              ELSE IF TextLike(x) /\ x.t = y.t THEN x.v = y.v
               ELSE IF x.t # y.t THEN FALSE
               ELSE IF x.t = "none" THEN TRUE
               ELSE IF x.t = "str" THEN x.v = y.v
               ELSE IF IsSeq(x) THEN Len(x.v) = Len(y.v) /\ \A i \in DOMAIN x.v : PyEq(x.v[i], y.v[i])
               ELSE FALSE
 \* returns tagged bool / Err / Un
-PyLt(x, y) == IF IsNum(x) /\ IsNum(y) THEN Bv(Num(x) < Num(y))
+PyLt(x, y) == IF TextLike(x) \/ TextLike(y) THEN Un
+              ELSE IF IsNum(x) /\ IsNum(y) THEN Bv(Num(x) < Num(y))
               ELSE IF x.t = "str" /\ y.t = "str" THEN Bv(LexLt(x.v, y.v))
               ELSE IF IsSeq(x) /\ x.t = y.t THEN Un
               ELSE Err
@@ -62,6 +69,7 @@ Cmp(op, x, y) ==
          [] op = "Gt"    -> PyLt(y, x)
          [] op = "LtE"   -> LET a == PyLt(y, x) IN IF Bad(a) THEN a ELSE Bv(~a.v)   \* total orders only in this domain
          [] op = "GtE"   -> LET a == PyLt(x, y) IN IF Bad(a) THEN a ELSE Bv(~a.v)
+         [] op \in {"In", "NotIn"} /\ (TextLike(x) \/ TextLike(y)) -> Un
          [] op = "In"    -> IF y.t = "str" THEN (IF x.t = "str" THEN Bv(SubStr(x.v, y.v)) ELSE Err)
                             ELSE IF IsSeq(y) THEN Bv(\E i \in DOMAIN y.v : PyEq(x, y.v[i]))
                             ELSE Err
@@ -74,9 +82,10 @@ Truth(x) == CASE Bad(x) -> x
               [] x.t = "int" -> Bv(x.v # 0)
               [] x.t = "none" -> Bv(FALSE)
               [] x.t \in {"str", "list", "tuple"} -> Bv(x.v # <<>>)
+              [] x.t \in {"ip", "path"} -> Un
 Bin(op, x, y) ==
   IF Bad(x) \/ Bad(y) THEN Worst(x, y)
-  ELSE IF x.t = "missing" \/ y.t = "missing" THEN Un
+  ELSE IF x.t = "missing" \/ y.t = "missing" \/ TextLike(x) \/ TextLike(y) THEN Un
   ELSE CASE op = "Add" -> IF IsNum(x) /\ IsNum(y) THEN I(Num(x) + Num(y))
                           ELSE IF x.t = "str" /\ y.t = "str" THEN S(x.v \o y.v)
                           ELSE IF x.t = y.t /\ IsSeq(x) THEN [t |-> x.t, v |-> x.v \o y.v]
@@ -90,6 +99,7 @@ Bin(op, x, y) ==
          [] op = "BitOr" -> IF x.t = "bool" /\ y.t = "bool" THEN Bv(x.v \/ y.v) ELSE IF IsNum(x) /\ IsNum(y) THEN I(BOr(Num(x), Num(y))) ELSE Err
 Call1(f, x) ==
   IF Bad(x) THEN x
+  ELSE IF TextLike(x) THEN (IF f = "str" THEN S(x.v) ELSE x)
   ELSE CASE f = "lower" -> IF x.t = "str" THEN S(Lower(x.v)) ELSE x
          [] f = "upper" -> IF x.t = "str" THEN S(Upper(x.v)) ELSE x
          [] f = "str"   -> IF x.t = "str" THEN x ELSE IF x.t = "int" THEN S(Digits(x.v)) ELSE Un
@@ -105,10 +115,28 @@ Helper(e, env) ==
   LET present == {i \in DOMAIN e.fields : FieldVal(env, e.fields[i]).t # "missing"}
       vals == {FieldVal(env, e.fields[i]) : i \in present}
       strs == {e.strs[i] : i \in DOMAIN e.strs}
-  IN IF \E v \in vals : v.t # "str" THEN Un
+  IN IF e.f = "field_equals" /\ \A v \in vals : v.t = "str" \/ TextLike(v)
+     THEN Bv(\E v \in vals, q \in strs : IF v.t = "str" THEN Lower(v.v) = Lower(q) ELSE v.v = Lower(q))   \* lower() leaves non-text values alone
+     ELSE IF \E v \in vals : v.t # "str" THEN Un
      ELSE CASE e.f = "field_equals"   -> Bv(\E v \in vals, q \in strs : Lower(v.v) = Lower(q))
             [] e.f = "field_contains" -> Bv(\E v \in vals, q \in strs : SubStr(Lower(q), Lower(v.v)))
             [] e.f = "field_regex"    -> Bv(\E v \in vals : SubStr(e.strs[1], v.v))      \* literal patterns only
+\* ---------- typed field matchers: Type.<t> OP value, and value in Type.<t> ----------
+\* The matcher scans the values of all fields of that type in field order and is true at the first value for
+\* which the operator holds; an operator that raises on an earlier value (e.g. ordering with None) raises.
+\* env["$types"] maps field name -> type name; env["$order"] is the field order.
+RECURSIVE ScanTyped(_, _, _, _)
+ScanTyped(op, vals, other, swap) ==
+  IF vals = <<>> THEN Bv(FALSE)
+  ELSE LET v == Head(vals)
+           r == IF swap THEN Cmp(op, other, v) ELSE Cmp(op, v, other)
+       IN IF Bad(r) THEN r ELSE IF r.v THEN Bv(TRUE) ELSE ScanTyped(op, Tail(vals), other, swap)
+TypedMatch(e, env) ==
+  LET names == SelectSeq(env["$order"].v, LAMBDA f : env["$types"].v[f] = e.ty)
+      vals == [i \in DOMAIN names |-> env[names[i]]]
+      other == e.b.v
+  IN IF e.form = "cmp" THEN ScanTyped(e.op, vals, other, FALSE)        \* Type.t OP const
+     ELSE ScanTyped("In", vals, other, TRUE)                           \* const in Type.t  : contains(value, const)
 \* ---------- expressions ----------
 \* env: record fields + generator variable "x"
 RECURSIVE Ev(_, _)
@@ -120,7 +148,8 @@ Ev(e, env) ==
                         IF \E i \in DOMAIN xs : xs[i].t = "err" THEN Err ELSE IF \E i \in DOMAIN xs : xs[i].t = "unspec" THEN Un ELSE Tu(xs)
     [] e.k = "neg"   -> LET x == Ev(e.a, env) IN IF Bad(x) THEN x ELSE IF x.t = "missing" THEN Un ELSE IF IsNum(x) THEN I(0 - Num(x)) ELSE Err
     [] e.k = "helper" -> Helper(e, env)
-    [] e.k = "hasfield" -> Bv(e.f \in DOMAIN env /\ e.f # "$x")
+    [] e.k = "typed"  -> TypedMatch(e, env)
+    [] e.k = "hasfield" -> Bv(e.f \in DOMAIN env /\ e.f \notin {"$x", "$types", "$order"})
     [] e.k = "list"  -> LET xs == [i \in DOMAIN e.es |-> Ev(e.es[i], env)] IN
                         IF \E i \in DOMAIN xs : xs[i].t = "err" THEN Err ELSE IF \E i \in DOMAIN xs : xs[i].t = "unspec" THEN Un ELSE Li(xs)
     [] e.k = "cmp"   -> Cmp(e.op, Ev(e.a, env), Ev(e.b, env))
